@@ -256,8 +256,10 @@ Fixpoint ol_update (k : list scalar) (e : tree) (es : list (list scalar * tree))
 
 Definition int_in_range (ik : ikind) (z : Z) : bool := (ikind_min ik <=? z)%Z && (z <=? ikind_max ik)%Z.
 
-(* gNMIToYANGTypeMatches with jsonTolerance rewrites the caller's TypedValue: a non-negative
-   int_val offered to an unsigned kind becomes a uint_val (and stays one for later attempts) *)
+(* gNMIToYANGTypeMatches with jsonTolerance turns a non-negative int_val offered to an unsigned
+   kind into a uint_val; since the fix "SetNode with TolerateJSONInconsistencies does not rewrite
+   the caller's TypedValue" this happens on a copy made per sanitizeGNMI call, so every attempt of
+   a union sees the original value *)
 Definition tol_rewrite (tol : bool) (k : ukind) (tv : tval) : tval :=
   match k, tv with
   | KInt ik, TVInt z => if tol && negb (ikind_signed ik) && (0 <=? z)%Z then TVUint z else tv
@@ -265,10 +267,11 @@ Definition tol_rewrite (tol : bool) (k : ukind) (tv : tval) : tval :=
   end.
 
 (* sanitizeGNMI for one kind: the TypedValue arm must be the one of the kind; integers are
-   range-checked through StringToType; `empty` has no arm at all *)
+   range-checked through StringToType; `empty` takes a bool_val (what EncodeTypedValue emits) *)
 Definition dec_tv_kind (ko : key_oracle) (k : ukind) (tv : tval) : result scalar :=
   match k, tv with
   | KBool, TVBool b => Ok (VBool b)
+  | KEmpty, TVBool true => Ok VEmpty
   | KStr, TVString s => Ok (VStr s)
   | KInt ik, TVInt z => if ikind_signed ik && int_in_range ik z then Ok (VInt ik z) else Err
   | KInt ik, TVUint z => if negb (ikind_signed ik) && int_in_range ik z then Ok (VInt ik z) else Err
@@ -283,10 +286,9 @@ Fixpoint dec_tv_first (ko : key_oracle) (tol : bool) (ks : list ukind) (tv : tva
   match ks with
   | [] => Err
   | k :: t =>
-      let tv' := tol_rewrite tol k tv in
-      match dec_tv_kind ko k tv' with
+      match dec_tv_kind ko k (tol_rewrite tol k tv) with
       | Ok v => union_val ko v                    (* setUnionFieldWithTypedValue / getUnionVal *)
-      | _ => dec_tv_first ko tol t tv'
+      | _ => dec_tv_first ko tol t tv
       end
   end.
 
